@@ -76,7 +76,9 @@ fn run_scenario(sc: &Value, t: &mut Tracer) {
 	let finite = sc["finite"].as_bool().unwrap_or(false);
 	let lenc = sc["lenc"].as_u64().unwrap_or(3) as usize;
 	let len = if finite { lenc * NF } else { 64 };
-	t.reset(json!({"kind": kind, "finite": finite, "len": len, "n": NF, "src": sc["src"]}));
+	let starved = kind == "starved";
+	t.reset(json!({"kind": kind, "finite": finite, "len": len, "n": NF, "starved": starved, "src": sc["src"]}));
+	let mut held: Option<std::sync::Arc<DecStats>> = None;
 	let mut sim = Sim::basic();
 	// a clock ticking once per chunk, and the id of a clock that no longer exists
 	let mut clock = sim.manager.add_clock(ClockSpeed::TicksPerSecond(2.0)).unwrap();
@@ -101,13 +103,21 @@ fn run_scenario(sc: &Value, t: &mut Tracer) {
 			H::Static(sim.manager.play(data).unwrap())
 		} else {
 			let (dec, stats) = ScriptDecoder::new(len, vec![3, 1, 2], 0, 0);
+			// a starved stream: the decoder delivers `after` frames and then hangs in decode() until the session is over
+			let dec = if starved { dec.with_block_after(sc["after"].as_u64().unwrap_or(0) as usize) } else { dec };
 			let mut data = StreamingSoundData::from_decoder(dec);
 			if !finite {
 				data = data.loop_region(..);
 			}
 			let h = sim.manager.play(data).unwrap();
 			// the decoder keeps ahead: let it fill before playback is observed
-			if finite {
+			if starved {
+				let t0 = std::time::Instant::now();
+				while !stats.blocked.load(std::sync::atomic::Ordering::SeqCst) && t0.elapsed() < Duration::from_secs(5) {
+					std::thread::sleep(Duration::from_micros(200));
+				}
+				held = Some(stats.clone());
+			} else if finite {
 				// a finite stream is decoded completely, after which the decoder thread ends
 				let t0 = std::time::Instant::now();
 				while !stats.dropped.load(std::sync::atomic::Ordering::SeqCst) && t0.elapsed() < Duration::from_secs(5) {
@@ -184,6 +194,9 @@ fn run_scenario(sc: &Value, t: &mut Tracer) {
 			}
 			a => panic!("unknown act {a}"),
 		}
+	}
+	if let Some(st) = held {
+		st.release.store(true, std::sync::atomic::Ordering::SeqCst);
 	}
 	t.ev(json!({"a": "end"}));
 }
